@@ -745,7 +745,7 @@ func executePlannedSelection(eCtx *executionContext, sp *selectionPlan, source i
 		if path == nil && eCtx.plan != nil && eCtx.plan.isMutation {
 			// Top-level mutation fields run serially: force everything this
 			// field deferred before the next field's resolver starts.
-			if f, ok := resolved.(func() interface{}); ok {
+			for f, ok := resolved.(func() interface{}); ok; f, ok = resolved.(func() interface{}) {
 				resolved = f()
 			}
 			switch val := resolved.(type) {
